@@ -611,6 +611,10 @@ func (env *Env) evalCall(n *ECall) TV {
 		return TV{T: e.boxValue(x.T, x.Typ)}
 	case "strat":
 		return TV{T: StrAt(arg(0).T, arg(1).T), Typ: types.Typ[types.Uint8]}
+	case "runein":
+		// runein(s, r): strings.ContainsRune(s, r)
+		e.declareFun("rune_in", []Sort{SStr, SInt}, SBool)
+		return TV{T: App(SBool, "rune_in", arg(0).T, arg(1).T), Typ: types.Typ[types.Bool]}
 	case "substr":
 		return TV{T: App(SStr, "str_sub", arg(0).T, arg(1).T, arg(2).T), Typ: types.Typ[types.String]}
 	case "runesub":
@@ -782,11 +786,40 @@ func (env *Env) evalCall(n *ECall) TV {
 		if !ok {
 			evalFail("lastresult: callee name expected")
 		}
+		if len(n.Args) == 2 {
+			// lastresult("callee", i): the i-th result (i >= 1) of the latest call
+			ix, ok := n.Args[1].(*EInt)
+			if !ok || ix.V == "0" {
+				evalFail("lastresult: result index >= 1 expected")
+			}
+			if env.opaqueLast != nil {
+				ok2 := sx.V + "#" + ix.V
+				if t, ok := env.opaqueLast[ok2]; ok {
+					return TV{T: t}
+				}
+				idx, _ := strconv.Atoi(ix.V)
+				t := e.fresh("calleelast", e.resultSortOfCallee(sx.V, idx))
+				env.opaqueLast[ok2] = t
+				return TV{T: t}
+			}
+			pre := "lastn|" + sx.V + "|" + ix.V + "|"
+			for k, t := range env.state.heap {
+				if strings.HasPrefix(k, pre) {
+					return TV{T: t, Typ: e.lastTyp[sx.V+"|"+ix.V]}
+				}
+			}
+			for k, t := range e.heap0 {
+				if strings.HasPrefix(k, pre) {
+					return TV{T: t, Typ: e.lastTyp[sx.V+"|"+ix.V]}
+				}
+			}
+			evalFail("lastresult: no call to %s with a result %s before this point", sx.V, ix.V)
+		}
 		if env.opaqueLast != nil {
 			if t, ok := env.opaqueLast[sx.V]; ok {
 				return TV{T: t}
 			}
-			t := e.fresh("calleelast", SInt)
+			t := e.fresh("calleelast", e.resultSortOfCallee(sx.V, 0))
 			env.opaqueLast[sx.V] = t
 			return TV{T: t}
 		}
@@ -1015,4 +1048,51 @@ func (e *Enc) assumePureFacts(pf *FuncContract, args []Term, app Term, rt types.
 		}
 		e.assert(t.T)
 	}
+}
+
+// resultSortOfCallee: the SMT sort of result idx of the function called under this name somewhere in the package
+// (Int if the name is called nowhere). Used for the opaque stand-in of lastresult in a callee's clause when the
+// clause is evaluated at a call site.
+func (e *Enc) resultSortOfCallee(name string, idx int) Sort {
+	e.p.mu.Lock()
+	if e.p.calleeSorts == nil {
+		e.p.calleeSorts = map[string][]Sort{}
+	}
+	if ss, ok := e.p.calleeSorts[name]; ok {
+		e.p.mu.Unlock()
+		if idx < len(ss) {
+			return ss[idx]
+		}
+		return SInt
+	}
+	e.p.mu.Unlock()
+	var found []Sort
+	for _, fn := range e.p.FuncList {
+		for _, b := range fn.Blocks {
+			for _, in := range b.Instrs {
+				ci, ok := in.(ssa.CallInstruction)
+				if !ok || found != nil {
+					continue
+				}
+				n, kind, _ := e.calleeName(ci.Common())
+				if kind == "builtin" || n != name {
+					continue
+				}
+				rs := ci.Common().Signature().Results()
+				for i := 0; i < rs.Len(); i++ {
+					found = append(found, e.sortOf(rs.At(i).Type()))
+				}
+				if rs.Len() == 0 {
+					found = []Sort{}
+				}
+			}
+		}
+	}
+	e.p.mu.Lock()
+	e.p.calleeSorts[name] = found
+	e.p.mu.Unlock()
+	if idx < len(found) {
+		return found[idx]
+	}
+	return SInt
 }
